@@ -33,6 +33,10 @@ SetupVerdict(c, ks) ==   \* run once per full trace, at the first event
 StepVerdict(tr, s, s2, e, ks) ==
    LET c == tr.cfg IN
    IF e.op = "preset" THEN "ok"
+   ELSE IF e.op = "wrongrole" THEN
+        IF e.exc # "ValueError" THEN "a call in the wrong role (" \o e.who \o ") is not refused with ValueError: " \o e.exc
+        ELSE IF e.hasproj /\ (e.sseq # s2.sseq \/ e.rseq # s2.rseq) THEN "a refused call in the wrong role changed a sequence number"
+        ELSE "ok"
    ELSE IF e.op = "seal" THEN
         IF e.exc # s2.exc THEN "seal: exception class: model " \o s2.exc \o ", implementation " \o e.exc
         ELSE IF e.hasproj /\ e.seq # s2.sseq THEN "seal: sequence number after the call"
